@@ -122,7 +122,10 @@ class Panoptica_Aggregator:
         if continue_file:
             with inevalfilelock:
                 with filelock:
-                    id_list = _load_first_column_entries(self.__output_file)
+                    # the first row of the output file is the header, not a subject
+                    id_list = _load_first_column_entries(
+                        self.__output_file, skip_header=True
+                    )
                     _write_content(self.__output_buffer_file, [[s] for s in id_list])
 
         atexit.register(self.__exist_handler)
@@ -238,13 +241,14 @@ def _read_first_row(file: str | Path):
     return row
 
 
-def _load_first_column_entries(file: str | Path):
+def _load_first_column_entries(file: str | Path, skip_header: bool = False):
     """Loads the entries from the first column of a TSV file.
 
     NOT THREAD SAFE BY ITSELF!
 
     Args:
         file (str | Path): The path to the file from which to load entries.
+        skip_header (bool): If True, the first row is a header and is not returned.
 
     Returns:
         list: A list of entries from the first column of the file.
@@ -258,6 +262,8 @@ def _load_first_column_entries(file: str | Path):
         rd = csv.reader(tsvfile, delimiter="\t", lineterminator="\n")
 
         rows = [row for row in rd]
+        if skip_header:
+            rows = rows[1:]
         if len(rows) == 0:
             id_list = []
         else:
